@@ -494,8 +494,12 @@ func runGeneralChain(rep *Report, seed int64, variant int, length uint32) {
 				return
 			}
 			res2 := run.Step(&BlockSpec{Height: h, Time: BlockTime(h)})
-			if res2.Diff != "" || !res2.ImplOK {
+			if res2.Diff != "" {
 				rep.Disagree("lockstep:recover", fmt.Sprintf("h=%d %s %s", h, res2.Diff, res2.ImplMsg), "")
+				return
+			}
+			if !res2.ImplOK {
+				rep.Count("chain-wedged-for-good") // model and implementation agree: reported as a liveness violation above
 				return
 			}
 		}
